@@ -208,6 +208,82 @@ def run(run):
     run.compare("consts", ccases, impl, mod)
 
     oracle(run)
+    conn_level(run)
+
+
+def conn_level(run):
+    """the clause about headers, on real endpoints: "the ack number and 32-bit ack bitmap carried by every outgoing
+    datagram name exactly the peer datagrams received among the newest 32".  Real UdpClient / ServerClientConnection
+    pairs (harness/props/C04.py Stream over netsim), sender counters started at 0 and next to the wrap; datagrams are
+    lost, duplicated, delivered late, and unauthentic (mangled) copies are injected; after every receiver update the
+    header it emitted is decoded and compared with the set of true datagram indices the receiver ACCEPTED
+    (authentic, first copy), kept here independently of BitField."""
+    import logging, struct
+    from harness.props import C04 as P4
+    logging.disable(logging.CRITICAL)
+    rng = run.rng
+    starts = [(0, 0), (RING - 20, RING - 200), (RING - 1, RING - 1)]
+    nsess = 0
+    for start in starts:
+        for sender in ("client", "server"):
+            st = P4.Stream(run, rng, sender, start[0], start[1], "C08 header ack fields")
+            accepted = set()
+            try:
+                held = []
+                for step in range(70 if run.thorough() else 45):
+                    st.advance()
+                    for _ in range(rng.randrange(0, 3)):
+                        st.app_send(rng.choice([9, 12, 40]), rng.choice([0, 1, -1]))
+                    new = st.tick_sender()
+                    for idx in new:
+                        r = rng.random()
+                        if r < 0.25:
+                            held.append(idx)                      # lost for now (may arrive late)
+                            if rng.random() < 0.5:
+                                st.inject_mangled(idx, rng.choice(["tag", "body", "seq"]), rng.choice([1, 5, 40, -3]))
+                            continue
+                        if st.deliver(idx):
+                            accepted.add(st.true_n(idx))
+                        if r > 0.85:
+                            st.deliver(idx, "duplicate")
+                    if held and rng.random() < 0.3:
+                        idx = held.pop(rng.randrange(len(held)))
+                        if st.deliver(idx, "late"):
+                            accepted.add(st.true_n(idx))
+                    before = len(st.net.emitted[st.receiver])
+                    st.tick_receiver()
+                    for rec in st.net.emitted[st.receiver][before:]:
+                        hdr = rec["hdr"]
+                        ack, bits = hdr[3], hdr[7]
+                        run.evaluations += 1
+                        if not accepted:
+                            named = set() if ack == 0 else {"?"}
+                            expect = set()
+                        else:
+                            newest = max(accepted)
+                            expect = {n for n in accepted if newest - n <= 32}
+                            named = set()
+                            if ack == wire(newest):
+                                named.add(newest)
+                                for d in range(1, 33):
+                                    if bits & (0x80000000 >> (d - 1)):
+                                        named.add(newest - d)
+                            else:
+                                named = {"ack=%d" % ack}
+                        if named != expect:
+                            run.oracle_violation("header-acks-name-a-datagram-that-was-not-accepted-or-miss-one",
+                                                 {"direction": "%s->%s" % (st.sender, st.receiver), "start": list(start), "step": step,
+                                                  "ack": ack, "ack_bits": bits,
+                                                  "named_not_accepted": sorted(str(x) for x in named - expect)[:8],
+                                                  "accepted_not_named": sorted(expect - (named if "?" not in named else set()))[:8]},
+                                                 "ConnectionBase._recv_datagram / _build_packet_impl")
+                        else:
+                            run.nt(("hdr", sender, start, len(expect)))
+                nsess += 1
+            finally:
+                st.finish()
+    run.count("conn_level_sessions", nsess)
+    logging.disable(logging.NOTSET)
 
 
 def oracle(run):
